@@ -338,6 +338,7 @@ def main(argv: Optional[List[str]] = None) -> int:
     ap.add_argument("--no-evidence", action="store_true")
     ap.add_argument("--quiet", action="store_true")
     ap.add_argument("--digest", action="store_true", help="print per-run trace digests (determinism self-test)")
+    ap.add_argument("--start", type=int, default=0, help="first run index for --digest")
     a = ap.parse_args(argv)
     prop = a.prop.upper()
     if prop not in PROPS:
@@ -362,7 +363,7 @@ def main(argv: Optional[List[str]] = None) -> int:
     if a.digest:
         # determinism self-test support: print digest per run, single process
         from sim.core import run_seed
-        for i in range(nruns):
+        for i in range(a.start, nruns):
             o = dict(opts); o["index"] = i; o["avoid"] = set(masks) if i % 2 == 0 else set()
             r = run_one(mod, prop, run_seed(batch_seed, prop, tier, i), None, o)
             d = (r.get("info") or {}).get("digest")
